@@ -67,6 +67,26 @@ impl From<&str> for TimeDelta {
     }
 }
 
+/// `acc + n * scale`, or a parse error when the term does not fit.
+fn add_term(acc: i64, n: i64, scale: i64) -> TResult<i64> {
+    match n.checked_mul(scale).and_then(|v| acc.checked_add(v)) {
+        Some(v) => Ok(v),
+        None => tbail!(ParseError:"duration out of range"),
+    }
+}
+
+/// `acc + n * scale` months, or a parse error when the month count does not fit.
+fn add_months(acc: i32, n: i64, scale: i64) -> TResult<i32> {
+    match n
+        .checked_mul(scale)
+        .and_then(|v| i32::try_from(v).ok())
+        .and_then(|v| acc.checked_add(v))
+    {
+        Some(v) => Ok(v),
+        None => tbail!(ParseError:"duration out of range"),
+    }
+}
+
 impl TimeDelta {
     /// Parse timedelta from string
     ///
@@ -124,7 +144,12 @@ impl TimeDelta {
         let mut unit = String::with_capacity(2);
         while let Some((i, mut ch)) = iter.next() {
             if !ch.is_ascii_digit() && i != 0 {
-                let n = duration[start..i].parse::<i64>().unwrap();
+                let n = match duration[start..i].parse::<i64>() {
+                    Ok(n) => n,
+                    Err(_) => {
+                        tbail!(ParseError:"expected an integer before the unit in the duration string")
+                    },
+                };
                 loop {
                     if ch.is_ascii_alphabetic() {
                         unit.push(ch)
@@ -144,22 +169,27 @@ impl TimeDelta {
                 tensure!(!unit.is_empty(), ParseError:"expected a unit in the duration string");
 
                 match unit.as_str() {
-                    "ns" => nsecs += n,
-                    "us" => nsecs += n * NANOS_PER_MICRO,
-                    "ms" => nsecs += n * NANOS_PER_MILLI,
-                    "s" => secs += n,
-                    "m" => secs += n * SECS_PER_MINUTE,
-                    "h" => secs += n * SECS_PER_HOUR,
-                    "d" => secs += n * SECS_PER_DAY,
-                    "w" => secs += n * SECS_PER_WEEK,
-                    "mo" => months += n as i32,
-                    "y" => months += n as i32 * 12,
+                    "ns" => nsecs = add_term(nsecs, n, 1)?,
+                    "us" => nsecs = add_term(nsecs, n, NANOS_PER_MICRO)?,
+                    "ms" => nsecs = add_term(nsecs, n, NANOS_PER_MILLI)?,
+                    "s" => secs = add_term(secs, n, 1)?,
+                    "m" => secs = add_term(secs, n, SECS_PER_MINUTE)?,
+                    "h" => secs = add_term(secs, n, SECS_PER_HOUR)?,
+                    "d" => secs = add_term(secs, n, SECS_PER_DAY)?,
+                    "w" => secs = add_term(secs, n, SECS_PER_WEEK)?,
+                    "mo" => months = add_months(months, n, 1)?,
+                    "y" => months = add_months(months, n, 12)?,
                     unit => tbail!(ParseError:"unit: '{}' not supported", unit),
                 }
                 unit.clear();
             }
         }
-        let duration = Duration::seconds(secs) + Duration::nanoseconds(nsecs);
+        let duration = match Duration::try_seconds(secs)
+            .and_then(|d| d.checked_add(&Duration::nanoseconds(nsecs)))
+        {
+            Some(d) => d,
+            None => tbail!(ParseError:"duration out of range"),
+        };
         Ok(TimeDelta {
             months,
             inner: duration,
